@@ -212,3 +212,61 @@ func VerifC16ConcurrentRegister() {
 	verifapi.Assert(served("other_void"), "c16.registered-name-is-served")
 	verifapi.Assert(!served("bank_transfer") && !served("bank_broken") && !served("other_refuse"), "c16.unregistered-name-is-method-not-found")
 }
+
+// VerifAnyBox has a method with a parameter of interface type (any JSON value is a valid argument for it).
+type VerifAnyBox struct {
+	notes int
+	last  interface{}
+}
+
+// Note takes one parameter of type interface{}.
+func (b *VerifAnyBox) Note(ctx context.Context, memo interface{}) (int64, error) {
+	b.notes++
+	b.last = memo
+	return int64(b.notes), nil
+}
+
+// Tag takes a declared parameter of an interface type and a concrete one.
+func (b *VerifAnyBox) Tag(ctx context.Context, memo interface{}, n int64) (int64, error) {
+	b.notes++
+	b.last = memo
+	return n, nil
+}
+
+// VerifC16AnyParam: a method whose declared parameter has an interface type still has that parameter: a call
+// without it is answered invalid-params and not run, a call with it runs and receives it (never the context),
+// one more is refused.
+func VerifC16AnyParam() {
+	srv := &Server{}
+	box := &VerifAnyBox{}
+	if err := srv.Register("box_", box); err != nil {
+		verifapi.Unreachable("c16.anyparam-register")
+		return
+	}
+	method := []string{"box_note", "box_tag"}[verifapi.Choose("method", 2)]
+	declared := 1
+	if method == "box_tag" {
+		declared = 2
+	}
+	n := verifapi.Choose("params", 4)
+	all := []interface{}{"memo", int64(7), int64(8)}
+	req := &Request{Method: method}
+	if n > 0 || verifapi.Bool("empty-array") {
+		req.Params, _ = json.Marshal(all[:n])
+	}
+	out := srv.Handle(context.Background(), &Message{ID: json.RawMessage("1"), Version: Version, Request: req})
+	verifapi.Reach("c16.anyparam")
+	if out == nil || out.Response == nil {
+		verifapi.Assert(false, "c15.handle-always-replies")
+		return
+	}
+	if n == declared {
+		verifapi.Assert(out.Response.Error == nil && box.notes == 1, "c16.anyparam.declared-parameters-accepted")
+		if s, ok := box.last.(string); box.notes == 1 {
+			verifapi.Assert(ok && s == "memo", "c16.anyparam.method-receives-the-callers-value")
+		}
+	} else {
+		verifapi.Assert(box.notes == 0, "c16.anyparam.wrong-count-does-not-run-the-method")
+		verifapi.Assert(out.Response.Error != nil && out.Response.Error.Code == ErrCodeInvalidParams, "c16.anyparam.wrong-count-is-invalid-params")
+	}
+}
